@@ -122,7 +122,10 @@ Definition check_deque (ctor : list sx) (ops : list sx) (rs : list sx) (minc : Z
   | Some ops, Some rs, Some bufv =>
       let d0 := match ctor with
                 | [] => Some zero_deque
+                | [SInt c] => new_deque None c 0                     (* NewDeque(c) *)
                 | [SInt c; SInt m] => new_deque None c m
+                | [SInt c; SInt m; SInt _] => new_deque None c m     (* further arguments are ignored *)
+                | [SInt _; SInt _; SInt _; SInt _] => new_deque None 0 0   (* NewDeque() *)
                 | _ => None
                 end in
       match d0 with
